@@ -311,18 +311,10 @@ func (a Array) Without(value Value) Set {
 			v := a.values[i]
 			if v != nil && v.Equal(t.item) {
 				if t.at == a.offset {
-					return Array{
-						values: a.values[1:],
-						offset: a.offset + 1,
-						count:  a.count - 1,
-					}
+					return NewOffsetArray(a.offset+1, a.values[1:]...)
 				}
 				if t.at == a.offset+len(a.values)-1 {
-					return Array{
-						values: a.values[:len(a.values)-1],
-						offset: a.offset,
-						count:  a.count - 1,
-					}
+					return NewOffsetArray(a.offset, a.values[:len(a.values)-1]...)
 				}
 				result := a.clone()
 				result.values[i] = nil
